@@ -601,7 +601,7 @@ def build_systems(ctx, n_sys):
         s["stream"] = "synthetic"
         out.append(s)
     # call histories on one object: in-place edits between calls
-    for k in range(max(3, n_sys // 9)):
+    for k in range(max(3, n_sys // 9) if n_sys < 200 else n_sys // 12):
         s = make_system(rng, rng.randint(2, 6))
         s["frames"] = place(rng, s, rng.randint(1, 3), periodic=rng.random() < 0.3)
         s["oob"] = [rng.randint(-2 * G, 2 * G) for _ in range(3)]
@@ -974,7 +974,7 @@ def correspond(ctx):
     if not ok:
         ctx.break_("build:Hbond/Run.vo", log)
     run_store(ctx)
-    systems = build_systems(ctx, 45 if quick else 1000)
+    systems = build_systems(ctx, 45 if quick else 900)
     ctx.log("systems:", len(systems))
     run_systems(ctx, systems)
 
